@@ -95,11 +95,15 @@ func genEdit(r *rng.R, flavor string) Edit {
 	case "tree", "treex":
 		// "tree": the structure-preserving domain (text inside one element, whole-element
 		// insert/delete, styles); "treex" adds merges across a boundary and splits
-		w := []int{5, 2, 3, 2, 2, 0, 0}
+		w := []int{5, 2, 3, 2, 2, 0, 0, 0, 0}
 		if f == "treex" {
-			w = []int{5, 2, 3, 2, 2, 2, 1}
+			w = []int{5, 2, 3, 2, 2, 2, 1, 2, 2}
 		}
 		switch r.Pick(w...) {
+		case 7:
+			return Edit{K: "xinl", I: r.Intn(16), S: strs2[r.Intn(len(strs2))]}
+		case 8:
+			return Edit{K: "xdin", I: r.Intn(4)}
 		case 0:
 			return Edit{K: "xtxt", I: r.Intn(16), S: strs2[r.Intn(len(strs2))]}
 		case 1:
